@@ -207,8 +207,9 @@ func init() {
 			return strings.TrimSpace(m.concStr(a[0]))
 		},
 		// ---- sort ----
-		"sort.SliceStable": hSortSliceStable,
-		"sort.Slice":       hSortSliceAny,
+		"sort.SliceStable":   hSortSliceStable,
+		"sort.Slice":         hSortSliceAny,
+		"sort.SliceIsSorted": hSortSliceIsSorted,
 	}
 }
 
@@ -1464,6 +1465,22 @@ func hSortSliceAny(m *Machine, fr *frame, fn *ssa.Function, a []Value) Value {
 	}
 	m.insertionSort(sl, callLess)
 	return nil
+}
+
+// sort.SliceIsSorted is literally: for i := n - 1; i > 0; i-- { if less(i, i-1) { return false } }; return true
+func hSortSliceIsSorted(m *Machine, fr *frame, fn *ssa.Function, a []Value) Value {
+	xi := a[0].(Iface)
+	sl, ok := xi.V.(Slice)
+	if !ok {
+		m.reflectPanic(fr, "sort.SliceIsSorted: not a slice")
+	}
+	for i := sl.Len - 1; i > 0; i-- {
+		r := m.call(a[1], []Value{m.C.BVC(uint64(i), 64), m.C.BVC(uint64(i-1), 64)}, fr, 0)
+		if m.branch(r.(T)) {
+			return m.C.False()
+		}
+	}
+	return m.C.True()
 }
 
 var _ = math.Abs
